@@ -46,6 +46,7 @@ type worker[T any, JobType iJob[T]] struct {
 	curProcessing   atomic.Uint32
 	status          atomic.Uint32
 	eventLoopSignal chan struct{}
+	eventLoopDone   chan struct{} // closed by the current run's event loop goroutine when it exits
 	errorChan       chan error
 	waiters         *sync.Cond
 	tickers         []*time.Ticker
@@ -472,12 +473,17 @@ func (w *worker[T, JobType]) goListenToContext() {
 // It continuously checks if the worker is running, has available capacity, and if there are jobs in the queue
 // When all conditions are met, it processes the next job in the queue
 func (w *worker[T, JobType]) goEventLoop() {
+	done := make(chan struct{})
+
 	// the channel of this run; Stop/Restart replace the field under the lock
-	w.mx.RLock()
+	w.mx.Lock()
 	eventLoopSignal := w.eventLoopSignal
-	w.mx.RUnlock()
+	w.eventLoopDone = done
+	w.mx.Unlock()
 
 	go func(signal <-chan struct{}) {
+		defer close(done)
+
 		for range signal {
 			for w.IsRunning() && w.curProcessing.Load() < w.concurrency.Load() && w.queues.Len() > 0 {
 				if err := w.processNextJob(); err != nil {
@@ -491,6 +497,20 @@ func (w *worker[T, JobType]) goEventLoop() {
 			w.releaseWaiters(w.curProcessing.Load())
 		}
 	}(eventLoopSignal)
+}
+
+// waitForEventLoop blocks until the event loop goroutine of the run that has
+// just been torn down has exited. A closed signal channel still delivers a
+// buffered signal, so without this the old loop could make one more pass
+// concurrently with the next run's loop.
+func (w *worker[T, JobType]) waitForEventLoop() {
+	w.mx.RLock()
+	done := w.eventLoopDone
+	w.mx.RUnlock()
+
+	if done != nil {
+		<-done
+	}
 }
 
 func (w *worker[T, JobType]) stopTickers() {
@@ -646,6 +666,7 @@ func (w *worker[T, JobType]) Stop() error {
 
 	w.stopTickers()
 	w.closeChannels()
+	w.waitForEventLoop()
 
 	w.stopAndRemoveAllWorkers()
 
@@ -678,6 +699,7 @@ func (w *worker[T, JobType]) Restart() error {
 	// the previous run's idle-worker remover ends with its run
 	w.stopTickers()
 	w.closeChannels()
+	w.waitForEventLoop()
 
 	w.mx.Lock()
 	w.eventLoopSignal = make(chan struct{}, eventLoopSignalCap)
